@@ -688,6 +688,8 @@ def finish(ctx):
         "'singular' means determinant = 0 in the model and LinAlgError in numpy (K uses boxes where both are exact)",
         "separations within 1e-6 nm of a half box are outside the property; K counts rounding decisions closer than 2^-30 "
         "(fractional) to a tie as indeterminate",
+        "the model is a pure function of values: that distance_to leaves the caller's point/box/position arrays untouched and does "
+        "not depend on earlier calls is decided by the S oracle on call histories (testing)",
         "C19_lattice_invariant needs fractional coordinates that are not half-integers for a general box (round-half-even: "
         "round(1/2)=0 but round(3/2)=2); for orthorhombic boxes C19_lattice_invariant_ortho has no such hypothesis",
     ]
